@@ -6,15 +6,28 @@ use simple_dns::rdata::RData;
 use simple_dns::*;
 use std::convert::TryFrom;
 
-/// IANA registry extract, written from the registry (mnemonic as the library spells it, number)
-const IANA: [(&str, u16); 41] = [
+/// IANA "Resource Record (RR) TYPEs" registry (all assigned data types; the library's spelling
+/// `RouteThrough` for RT and `NSAP_PTR` for NSAP-PTR is accepted by `same_mnemonic`)
+const IANA: [(&str, u16); 96] = [
     ("A", 1), ("NS", 2), ("MD", 3), ("MF", 4), ("CNAME", 5), ("SOA", 6), ("MB", 7), ("MG", 8), ("MR", 9),
     ("NULL", 10), ("WKS", 11), ("PTR", 12), ("HINFO", 13), ("MINFO", 14), ("MX", 15), ("TXT", 16), ("RP", 17),
-    ("AFSDB", 18), ("ISDN", 20), ("RouteThrough", 21), ("NSAP", 22), ("NSAP_PTR", 23), ("AAAA", 28), ("LOC", 29),
-    ("SRV", 33), ("NAPTR", 35), ("KX", 36), ("CERT", 37), ("OPT", 41), ("DS", 43), ("IPSECKEY", 45), ("RRSIG", 46),
-    ("NSEC", 47), ("DNSKEY", 48), ("DHCID", 49), ("ZONEMD", 63), ("SVCB", 64), ("HTTPS", 65), ("EUI48", 108),
-    ("EUI64", 109), ("CAA", 257),
+    ("AFSDB", 18), ("X25", 19), ("ISDN", 20), ("RT", 21), ("NSAP", 22), ("NSAP-PTR", 23), ("SIG", 24), ("KEY", 25),
+    ("PX", 26), ("GPOS", 27), ("AAAA", 28), ("LOC", 29), ("NXT", 30), ("EID", 31), ("NIMLOC", 32), ("SRV", 33),
+    ("ATMA", 34), ("NAPTR", 35), ("KX", 36), ("CERT", 37), ("A6", 38), ("DNAME", 39), ("SINK", 40), ("OPT", 41),
+    ("APL", 42), ("DS", 43), ("SSHFP", 44), ("IPSECKEY", 45), ("RRSIG", 46), ("NSEC", 47), ("DNSKEY", 48),
+    ("DHCID", 49), ("NSEC3", 50), ("NSEC3PARAM", 51), ("TLSA", 52), ("SMIMEA", 53), ("HIP", 55), ("NINFO", 56),
+    ("RKEY", 57), ("TALINK", 58), ("CDS", 59), ("CDNSKEY", 60), ("OPENPGPKEY", 61), ("CSYNC", 62), ("ZONEMD", 63),
+    ("SVCB", 64), ("HTTPS", 65), ("DSYNC", 66), ("SPF", 99), ("UINFO", 100), ("UID", 101), ("GID", 102),
+    ("UNSPEC", 103), ("NID", 104), ("L32", 105), ("L64", 106), ("LP", 107), ("EUI48", 108), ("EUI64", 109),
+    ("NXNAME", 128), ("TKEY", 249), ("TSIG", 250), ("URI", 256), ("CAA", 257), ("AVC", 258), ("DOA", 259),
+    ("AMTRELAY", 260), ("RESINFO", 261), ("WALLET", 262), ("CLA", 263), ("IPN", 264), ("TA", 32768), ("DLV", 32769),
+    ("IXFR", 251), ("AXFR", 252), ("MAILB", 253), ("MAILA", 254), ("ANY", 255), ("NB", 32),
 ];
+
+fn same_mnemonic(lib: &str, iana: &str) -> bool {
+    let norm = |s: &str| s.to_ascii_uppercase().replace('-', "_");
+    norm(lib) == norm(iana) || (lib == "RouteThrough" && iana == "RT")
+}
 
 fn mnemonic<T: std::fmt::Debug>(t: &T) -> String {
     let s = format!("{:?}", t);
@@ -35,9 +48,13 @@ pub fn cases(_tier: &str, seed: u64) -> Vec<Case> {
         let back = u16::from(t);
         let mut cs = Case::new(format!("type {}", c), format!("{} {}", mnemonic(&t), back)).tag("type");
         if back != c { cs = cs.fail("type-roundtrip", format!("code {} -> {:?} -> {}", c, t, back)); }
-        match IANA.iter().find(|(_, n)| *n == c) {
-            Some((m, _)) => if mnemonic(&t) != *m { cs = cs.fail("type-iana", format!("code {} is {} in the IANA registry, library says {:?}", c, m, t)); },
-            None => if !matches!(t, TYPE::Unknown(x) if x == c) { cs = cs.fail("type-alias", format!("unsupported code {} aliased to {:?}", c, t)); },
+        // a named type must carry the mnemonic the IANA registry gives that number; any code may be
+        // left unsupported (`Unknown`), none may be aliased to another type's name
+        if !matches!(t, TYPE::Unknown(x) if x == c) {
+            if matches!(t, TYPE::Unknown(_)) { cs = cs.fail("type-alias", format!("code {} became {:?}", c, t)); }
+            else if !IANA.iter().any(|(m, n)| *n == c && same_mnemonic(&mnemonic(&t), m)) {
+                cs = cs.fail("type-iana", format!("code {} is reported as {:?}, which is not its IANA mnemonic", c, t));
+            }
         }
         v.push(cs);
         // CLASS
@@ -55,7 +72,7 @@ pub fn cases(_tier: &str, seed: u64) -> Vec<Case> {
         let r = QTYPE::try_from(c);
         let out = match &r { Ok(x) => format!("ok {}", u16::from(*x)), Err(_) => "err".to_string() };
         let mut cs = Case::new(format!("qtype {}", c), out).tag("qtype");
-        let supported = IANA.iter().any(|(_, n)| *n == c) || (251..=255).contains(&c);
+        let supported = !matches!(TYPE::from(c), TYPE::Unknown(_)) || (251..=255).contains(&c);
         match &r {
             Ok(x) => {
                 if u16::from(*x) != c { cs = cs.fail("qtype-roundtrip", format!("qtype code {}", c)); }
